@@ -18,7 +18,8 @@ EVIDENCE = {
             "CRLF pair; seeded cut sets biased to land next to CR/LF, in chunk-size lines, between chunk data and its "
             "terminator and inside the trailer; and two recv_bytes values; the thread scheduler is fixed to run-to-block so "
             "that arrival is the only varying dimension; one evaluation = one (stream, schedule) run; distinct = distinct "
-            "history digest; non-trivial = the stream was cut at least once inside a message",
+            "history digest; non-trivial = the stream was cut at least once inside a message; in ~12 % of the scenarios an "
+            "L-byte window (L in 6..8) placed next to a CR/LF is additionally cut in all 2^(L-1) ways (exhaustive inside the window)",
     "real": common.REAL, "stub": common.STUB,
     "assumptions": [
         "metamorphic oracle: no reference parser is involved; a defect that mis-handles a message consistently is C01's business, not C02's",
@@ -49,6 +50,10 @@ def gen(W):
     sc["ncuts"] = 1 + W.draw(6)
     sc["sub_seed"] = W.draw(1 << 30)
     sc["recv_alt"] = W.choice([1, 7, 64])
+    # exhaustive arm: all 2^(L-1) ways of cutting an L-byte window placed at an interesting offset
+    sc["enum_region"] = W.chance(0.12)
+    sc["enum_at"] = W.draw(1000)
+    sc["enum_len"] = W.choice([6, 7, 8])
     return sc
 
 
@@ -130,6 +135,13 @@ def run_one(tapes, tier, scenario=None):
                 cuts.add(rr.randrange(1, n))
         schedules.append(("seeded_%d" % j, sorted(cuts), 8192))
     schedules.append(("recv_%d" % sc["recv_alt"], [], sc["recv_alt"]))
+    if sc.get("enum_region") and io:
+        start = io[sc["enum_at"] % len(io)]
+        start = max(0, min(start - 2, n - sc["enum_len"]))
+        inner = list(range(start + 1, min(n, start + sc["enum_len"])))
+        for mask in range(1, 1 << len(inner)):
+            cuts = [p_ for bit, p_ in enumerate(inner) if mask >> bit & 1]
+            schedules.append(("enum_%d_%d" % (start, mask), cuts, 8192))
     only = sc.get("only_schedules")
     if only is not None:
         schedules = [schedules[0]] + [s_ for s_ in schedules[1:] if s_[0] in only]
@@ -168,6 +180,8 @@ def run_one(tapes, tier, scenario=None):
         agg["switches"] += st["switches"]
         agg["sim_seconds"] += st["sim_seconds"]
         agg["probes"]["schedule:" + name.split("_")[0]] = agg["probes"].get("schedule:" + name.split("_")[0], 0) + 1
+        if name.startswith("enum_") and name.endswith("_1"):
+            agg["probes"]["windows_cut_exhaustively"] = agg["probes"].get("windows_cut_exhaustively", 0) + 1
         agg["faults"]["seg_cut"] = agg["faults"].get("seg_cut", 0) + nc
     agg["cells"] = [m["mutation"] or "canonical:" + m["framing"] for m in msgs]
     res.stats = agg
@@ -175,6 +189,6 @@ def run_one(tapes, tier, scenario=None):
     res.interleaving = subs[-1][1]["inter"]
     res.nontrivial = True
     res.sample = {"stream": stream[:240].decode("latin-1"), "bytes": n, "mutations": [m["mutation"] for m in msgs],
-                  "schedules": [(name, nc, rb) for (name, cuts, rb), (_, info, nc) in zip(schedules, subs)],
+                  "schedules": [(name, nc, rb) for (name, cuts, rb), (_, info, nc) in zip(schedules, subs)][:12],
                   "outcome": {"statuses": base["statuses"], "calls": [c[1] for c in base["calls"]], "closed": base["closed"]}}
     return res
